@@ -134,9 +134,13 @@ class Placement(object):
                 if lim is None or self.ran.get(r.name, 0) < lim:
                     self.ran[r.name] = self.ran.get(r.name, 0) + 1
                     return r
+        # a thread that is going to be held first runs to its first scheduling point (otherwise the base strategy may
+        # let everybody else finish before the held thread has even started, and every placement collapses into one)
+        for r in enabled:
+            if r.name in self.hold and r.op[0] == "start":
+                return r
         free = [r for r in enabled if not self._held(s, r)]
         if free:
-            # prefer letting held threads reach their first point
             return self.base.choose(s, free)
         return self.base.choose(s, enabled)
 
